@@ -22,17 +22,20 @@ func TestSelf(t *testing.T) {
 		t.Fatalf(format, a...)
 	}
 	c := Case{Pieces: enumPieces(), Sizes: gen.Sizes{Min: 1, Avg: 2, Max: 4}, Tiled: true}
-	probe := func(rd Read, res result, before, after map[desync.ChunkID]int, stale map[int]bool) []string {
+	probeD := func(rd Read, res result, before, after map[desync.ChunkID]int, stale map[int]bool, during []failRec) []string {
 		var o hx.Outcome
 		w := newWorld(c, &o)
 		defer w.cleanup()
 		w.alive, w.staleBits = true, stale
-		w.judge("self", rd, res, before, after)
+		w.judge("self", rd, res, before, after, during)
 		var sigs []string
 		for _, v := range o.Violations {
 			sigs = append(sigs, v.Sig)
 		}
 		return sigs
+	}
+	probe := func(rd Read, res result, before, after map[desync.ChunkID]int, stale map[int]bool) []string {
+		return probeD(rd, res, before, after, stale, nil)
 	}
 	var o0 hx.Outcome
 	w0 := newWorld(c, &o0)
@@ -66,6 +69,23 @@ func TestSelf(t *testing.T) {
 	expect("wrong byte", probe(Read{Off: 0, Len: 16}, result{n: 16, got: flipped}, none, map[desync.ChunkID]int{id4: 1}, nil), "C10:read:wrong-bytes")
 	expect("node short", probe(Read{Off: 0, Len: 8, Node: true}, result{node: true, n: 7, got: blob[:7]}, none, none, nil), "C10:node:wrong-count")
 	expect("node error", probe(Read{Off: 0, Len: 8, Node: true}, result{node: true, errno: 5}, none, none, nil))
+	// a fetch failed during the read and the answer is a short success
+	f0 := []failRec{{id0, "url-wraps-EOF"}}
+	expect("node ok+empty after failed fetch", probeD(Read{Off: 0, Len: 3, Node: true}, result{node: true, n: 0}, none, map[desync.ChunkID]int{id0: 1}, nil, f0), "C10:node:fetch-failure-answered-short-ok")
+	expect("handle EOF+empty after failed fetch", probeD(Read{Off: 0, Len: 3}, result{n: 0, err: io.EOF}, none, map[desync.ChunkID]int{id0: 1}, nil, f0), "C10:read:fetch-failure-answered-short-ok")
+	expect("node error after failed fetch", probeD(Read{Off: 0, Len: 3, Node: true}, result{node: true, errno: 5}, none, map[desync.ChunkID]int{id0: 1}, nil, f0))
+	expect("node clipped ok, failure elsewhere", probeD(Read{Off: 12, Len: 10, Node: true}, result{node: true, n: 4, got: blob[12:]}, none, map[desync.ChunkID]int{id0: 1}, nil, f0))
+	expect("node short in batch with failure", probeD(Read{Off: 0, Len: 3, Node: true}, result{node: true, n: 0}, none, map[desync.ChunkID]int{id0: 1}, nil, nil), "C10:node:fetch-failure-answered-short-ok")
+	for k, want := range map[int]string{fkPlain: "plain", fkFmtEOF: "fmt-wraps-EOF", fkPkgEOF: "pkg-wraps-EOF", fkURLEOF: "url-wraps-EOF",
+		fkUnexpEOF: "unexpected-EOF", fkMissing: "chunk-missing", fkInvalid: "chunk-invalid"} {
+		err := faultErr(k, "s", 1)
+		if got := errLabel(err); got != want {
+			bad("fault kind %d (%v) classified %q, expected %q", k, err, got, want)
+		}
+		if wrapsEOF(want) != errors.Is(err, io.EOF) || err == io.EOF {
+			bad("fault kind %d (%v): wraps-EOF classification disagrees with errors.Is", k, err)
+		}
+	}
 	expect("panic at end", probe(Read{Off: 16, Len: 0}, result{panicked: "boom"}, none, none, nil), "C10:read:panic-zero-length-at-end")
 	expect("panic elsewhere", probe(Read{Off: 3, Len: 1}, result{panicked: "boom"}, none, none, nil), "C10:read:panic")
 
